@@ -2,7 +2,6 @@
 CONSTANTS
   Mode = "all"
   SeqLen = 3
-  Profile = "mixed"
   Ids = {1, 2}
   Vers = {1}
   Kinds = {"node", "way"}
